@@ -453,4 +453,97 @@ theorem col_all_bits {p1 p2 q1 q2 : Pt}
         · rw [hdx, d']; ring
         · rw [hdy, d']; ring
 
+/-! ### which branch answers (determination lemmas) -/
+
+theorem not_sameStrict_zero_left {y : Rat} : ¬ SameStrict 0 y := by
+  rintro (⟨h, _⟩ | ⟨h, _⟩) <;> exact lt_irrefl _ h
+
+theorem not_sameStrict_zero_right {x : Rat} : ¬ SameStrict x 0 := by
+  rintro (⟨_, h⟩ | ⟨_, h⟩) <;> exact lt_irrefl _ h
+
+theorem li_none_of_box {p1 p2 q1 q2 : Pt} (h : boxMeet p1 p2 q1 q2 = false) :
+    lineIntersection p1 p2 q1 q2 = none := by
+  rw [li_def, h]; rfl
+
+theorem li_none_of_sameStrict_p {p1 p2 q1 q2 : Pt}
+    (h : SameStrict (cross p1 p2 q1) (cross p1 p2 q2)) : lineIntersection p1 p2 q1 q2 = none := by
+  refine li_cases p1 p2 q1 q2 (fun r => r = none) (fun _ => rfl) (fun _ _ => rfl) (fun _ _ => rfl)
+    ?_ ?_ ?_
+  · intro _ h1 _ _ _; rw [h1] at h; exact absurd h not_sameStrict_zero_left
+  · intro _ h1 _ _ _; exact absurd h h1
+  · intro _ h1 _ _ _ _ _; exact absurd h h1
+
+theorem li_none_of_sameStrict_q {p1 p2 q1 q2 : Pt}
+    (h : SameStrict (cross q1 q2 p1) (cross q1 q2 p2)) : lineIntersection p1 p2 q1 q2 = none := by
+  refine li_cases p1 p2 q1 q2 (fun r => r = none) (fun _ => rfl) (fun _ _ => rfl) (fun _ _ => rfl)
+    ?_ ?_ ?_
+  · intro _ _ _ h1 _; rw [h1] at h; exact absurd h not_sameStrict_zero_left
+  · intro _ _ h2 _ _; exact absurd h h2
+  · intro _ _ h2 _ _ _ _; exact absurd h h2
+
+theorem li_eq_col {p1 p2 q1 q2 : Pt} (hb : boxMeet p1 p2 q1 q2 = true)
+    (hq1 : cross p1 p2 q1 = 0) (hq2 : cross p1 p2 q2 = 0)
+    (hp1 : cross q1 q2 p1 = 0) (hp2 : cross q1 q2 p2 = 0) :
+    lineIntersection p1 p2 q1 q2 = collinearIntersection p1 p2 q1 q2 := by
+  refine li_cases p1 p2 q1 q2 (fun r => r = collinearIntersection p1 p2 q1 q2) ?_ ?_ ?_
+    (fun _ _ _ _ _ => rfl) ?_ ?_
+  · intro h; rw [hb] at h; cases h
+  · intro _ h; rw [hq1] at h; exact absurd h not_sameStrict_zero_left
+  · intro _ h; rw [hp1] at h; exact absurd h not_sameStrict_zero_left
+  · intro _ _ _ h3 _; exact absurd ⟨hq1, hq2, hp1, hp2⟩ h3
+  · intro _ _ _ h _ _ _; exact absurd hq1 h
+
+theorem li_eq_improper {p1 p2 q1 q2 : Pt} (hb : boxMeet p1 p2 q1 q2 = true)
+    (h1 : ¬ SameStrict (cross p1 p2 q1) (cross p1 p2 q2))
+    (h2 : ¬ SameStrict (cross q1 q2 p1) (cross q1 q2 p2))
+    (h3 : ¬ (cross p1 p2 q1 = 0 ∧ cross p1 p2 q2 = 0 ∧ cross q1 q2 p1 = 0 ∧ cross q1 q2 p2 = 0))
+    (h4 : cross p1 p2 q1 = 0 ∨ cross p1 p2 q2 = 0 ∨ cross q1 q2 p1 = 0 ∨ cross q1 q2 p2 = 0) :
+    lineIntersection p1 p2 q1 q2 = some (.single (cascadePt p1 p2 q1 q2) false) := by
+  refine li_cases p1 p2 q1 q2 (fun r => r = some (.single (cascadePt p1 p2 q1 q2) false)) ?_ ?_ ?_
+    ?_ (fun _ _ _ _ _ => rfl) ?_
+  · intro h; rw [hb] at h; cases h
+  · intro _ h; exact absurd h h1
+  · intro _ h; exact absurd h h2
+  · intro _ a b c d; exact absurd ⟨a, b, c, d⟩ h3
+  · intro _ _ _ a b c d
+    rcases h4 with h | h | h | h
+    · exact absurd h a
+    · exact absurd h b
+    · exact absurd h c
+    · exact absurd h d
+
+theorem li_eq_proper {p1 p2 q1 q2 : Pt} (hb : boxMeet p1 p2 q1 q2 = true)
+    (h1 : ¬ SameStrict (cross p1 p2 q1) (cross p1 p2 q2))
+    (h2 : ¬ SameStrict (cross q1 q2 p1) (cross q1 q2 p2))
+    (a : cross p1 p2 q1 ≠ 0) (b : cross p1 p2 q2 ≠ 0) (c : cross q1 q2 p1 ≠ 0) (d : cross q1 q2 p2 ≠ 0) :
+    lineIntersection p1 p2 q1 q2 = some (.single (properPoint p1 p2 q1 q2) true) := by
+  refine li_cases p1 p2 q1 q2 (fun r => r = some (.single (properPoint p1 p2 q1 q2) true)) ?_ ?_ ?_
+    ?_ ?_ (fun _ _ _ _ _ _ _ => rfl)
+  · intro h; rw [hb] at h; cases h
+  · intro _ h; exact absurd h h1
+  · intro _ h; exact absurd h h2
+  · intro _ a' _ _ _; exact absurd a' a
+  · intro _ _ _ _ h4
+    rcases h4 with h | h | h | h
+    · exact absurd h a
+    · exact absurd h b
+    · exact absurd h c
+    · exact absurd h d
+
+theorem cascadePt_endpoint (p1 p2 q1 q2 : Pt) :
+    cascadePt p1 p2 q1 q2 = p1 ∨ cascadePt p1 p2 q1 q2 = p2 ∨ cascadePt p1 p2 q1 q2 = q1 ∨
+      cascadePt p1 p2 q1 q2 = q2 := by
+  unfold cascadePt
+  split
+  · exact Or.inl rfl
+  split
+  · exact Or.inr (Or.inl rfl)
+  split
+  · exact Or.inr (Or.inr (Or.inl rfl))
+  split
+  · exact Or.inr (Or.inr (Or.inr rfl))
+  split
+  · exact Or.inl rfl
+  · exact Or.inr (Or.inl rfl)
+
 end Geo.Proofs.Kernel
